@@ -154,6 +154,8 @@ partial def pVal : P Val := do
     let r := (t.drop 2).toString
     if r == "inf" then pure (.score .posInf)
     else if r == "-inf" then pure (.score .negInf)
+    -- a NaN result (float increment of a stored "NaN"): no model value equals it
+    else if r == "nan" then pure (.list [.bytes "nan".toUTF8.toList])
     else match parseDyadic r with
       | .ok d => pure (.score (.fin d))
       | .error e => throw e
